@@ -153,7 +153,7 @@ impl Out {
 pub fn fx(family: &str) -> String {
     if let Ok(v) = std::env::var("VERIF_FX") { return v; }
     match family {
-        "tpl" | "style" | "adapt" | "locks" => "current",
+        "tpl" | "style" | "adapt" | "locks" | "limiter" => "current",
         _ => "",
     }.to_string()
 }
